@@ -180,33 +180,33 @@ def targets():
                       post=lambda i, o: [("|x|", z3.Implies(i[0] != -(1 << 31), o == absz(i[0])))]))
     # ---- skrifa hinting math ------------------------------------------------------------
     M = "hint::math"
-    T.append(dict(id="hint::math::floor", fn=("floor", ["i32"]), where="sk", ins=["i32"], out="i32", props=["C20"],
+    T.append(dict(id="hint::math::floor", fn=("floor", ["i32"]), where="sk", ins=["i32"], out="i32", props=["C20leaf"],
                   post=lambda i, o: [("largest multiple of 64 <= x", z3.And(o % 64 == 0, o <= i[0], i[0] - o < 64))]))
-    T.append(dict(id="hint::math::round", fn=("round", ["i32"]), where="sk", ins=["i32"], out="i32", props=["C20"],
+    T.append(dict(id="hint::math::round", fn=("round", ["i32"]), where="sk", ins=["i32"], out="i32", props=["C20leaf"],
                   post=lambda i, o: [("floor(x + 32)", z3.Implies(i[0] <= (1 << 31) - 33, z3.And(o % 64 == 0, o - i[0] > -32, o - i[0] <= 32)))]))
-    T.append(dict(id="hint::math::ceil", fn=("ceil", ["i32"]), where="sk", ins=["i32"], out="i32", props=["C20"],
+    T.append(dict(id="hint::math::ceil", fn=("ceil", ["i32"]), where="sk", ins=["i32"], out="i32", props=["C20leaf"],
                   post=lambda i, o: [("smallest multiple of 64 >= x", z3.Implies(i[0] <= (1 << 31) - 64, z3.And(o % 64 == 0, o >= i[0], o - i[0] < 64)))]))
-    T.append(dict(id="hint::math::round_pad", fn=("round_pad", ["i32", "i32"]), where="sk", ins=["i32", "i32"], out="i32", props=["C20"],
+    T.append(dict(id="hint::math::round_pad", fn=("round_pad", ["i32", "i32"]), where="sk", ins=["i32", "i32"], out="i32", props=["C20leaf"],
                   post=lambda i, o: []))
-    T.append(dict(id="hint::math::mul", fn=("mul", ["i32", "i32"]), where="sk", ins=["i32", "i32"], out="i32", props=["C20"],
+    T.append(dict(id="hint::math::mul", fn=("mul", ["i32", "i32"]), where="sk", ins=["i32", "i32"], out="i32", props=["C20leaf"],
                   post=lambda i, o: [("FT_MulFix", z3.Implies(z3.And(haz_shift(i[0] * i[1], 16) >= -(1 << 31), haz_shift(i[0] * i[1], 16) < (1 << 31)), o == haz_shift(i[0] * i[1], 16)))]))
-    T.append(dict(id="hint::math::div", fn=("div", ["i32", "i32"]), where="sk", ins=["i32", "i32"], out="i32", props=["C20"],
+    T.append(dict(id="hint::math::div", fn=("div", ["i32", "i32"]), where="sk", ins=["i32", "i32"], out="i32", props=["C20leaf"],
                   post=lambda i, o: [("FT_DivFix", z3.Implies(z3.And(i[1] != 0, fits_i32(i[0] * 65536, i[1])), rounded_quotient(i[0] * 65536, i[1], o)))]))
-    T.append(dict(id="hint::math::mul_div", fn=("mul_div", ["i32", "i32", "i32"]), where="sk", ins=["i32", "i32", "i32"], out="i32", props=["C20"],
+    T.append(dict(id="hint::math::mul_div", fn=("mul_div", ["i32", "i32", "i32"]), where="sk", ins=["i32", "i32", "i32"], out="i32", props=["C20leaf"],
                   post=lambda i, o: [("FT_MulDiv", z3.Implies(z3.And(i[2] != 0, fits_i32(i[0] * i[1], i[2])), rounded_quotient(i[0] * i[1], i[2], o)))]))
-    T.append(dict(id="hint::math::mul_div_no_round", fn=("mul_div_no_round", ["i32", "i32", "i32"]), where="sk", ins=["i32", "i32", "i32"], out="i32", props=["C20"],
+    T.append(dict(id="hint::math::mul_div_no_round", fn=("mul_div_no_round", ["i32", "i32", "i32"]), where="sk", ins=["i32", "i32", "i32"], out="i32", props=["C20leaf"],
                   post=lambda i, o: [("FT_MulDiv_No_Round: truncated |a||b|/|c| with the product sign, when representable",
                                       z3.Implies(z3.And(i[2] != 0, i[0] != -(1 << 31), i[1] != -(1 << 31), i[2] != -(1 << 31),
                                                         absz(i[0]) * absz(i[1]) < (1 << 31) * absz(i[2])),
                                                  z3.And(absz(o) * absz(i[2]) <= absz(i[0]) * absz(i[1]),
                                                         absz(i[0]) * absz(i[1]) < (absz(o) + 1) * absz(i[2]),
                                                         z3.Or(o == 0, (o < 0) == z3.Xor(z3.Xor(i[0] < 0, i[1] < 0), i[2] < 0)))))]))
-    T.append(dict(id="hint::math::mul14", fn=("mul14", ["i32", "i32"]), where="sk", ins=["i32", "i32"], out="i32", props=["C20"],
+    T.append(dict(id="hint::math::mul14", fn=("mul14", ["i32", "i32"]), where="sk", ins=["i32", "i32"], out="i32", props=["C20leaf"],
                   post=lambda i, o: [("TT_MulFix14: (a*b + 0x2000 + sign) >> 14, when representable",
                                       z3.Implies(z3.And((i[0] * i[1] + 0x2000 + z3.If(i[0] * i[1] < 0, -1, 0)) / 16384 >= -(1 << 31),
                                                         (i[0] * i[1] + 0x2000 + z3.If(i[0] * i[1] < 0, -1, 0)) / 16384 < (1 << 31)),
                                                  o == (i[0] * i[1] + 0x2000 + z3.If(i[0] * i[1] < 0, -1, 0)) / 16384))]))
-    T.append(dict(id="RoundState::round", fn=("round", ["RoundState", "F26Dot6"]), where="sk", ins=["roundstate", "nt32"], props=["C20"],
+    T.append(dict(id="RoundState::round", fn=("round", ["RoundState", "F26Dot6"]), where="sk", ins=["roundstate", "nt32"], props=["C20leaf"],
                   post=lambda i, o: []))
     return T
 
@@ -219,7 +219,7 @@ def mk_inputs(eng, kinds, signs=None):
     k = 0
 
     def scalar(ty, name, sg):
-        if sg is None:
+        if sg is None or eng.mode == "bv":
             return eng.fresh_var(ty, name)
         if sg == 0:
             return z3.IntVal(0)
@@ -269,7 +269,10 @@ def sign_cases(kinds):
         if kd in ("nt32", "nt16", "i32"):
             opts.append([-1, 0, 1])
         elif kd == "roundstate":
-            opts.append(list(range(8)))
+            # Super / Super45 (6, 7) read threshold/phase/period, which only SROUND/S45ROUND can set
+            # and only to a few values: an unconstrained RoundState would raise false alarms, so those
+            # two modes are left to the Kani two-step (SROUND ; ROUND) harnesses
+            opts.append(list(range(6)))
         else:
             opts.append([None])
     return list(itertools.product(*opts))
@@ -369,8 +372,44 @@ def main():
                     note(desc, "post", r, dt, wit, extra)
             entry["reachable_cases"] = reach
         except Unsupported as e:
-            entry["status"] = "inconclusive"
-            entry["why"] = "translator: " + str(e)
+            # bit operations on symbolic operands have no integer encoding here: decide the
+            # panic obligations of this function in the bit-vector encoding instead
+            try:
+                agg.clear()
+                bcases = [sg for sg in sign_cases(t["ins"])] if "roundstate" in t["ins"] else [None]
+                seen_modes = set()
+                reach = 0
+                for signs in bcases:
+                    if signs is not None:
+                        key = tuple(sg if kd == "roundstate" else None for sg, kd in zip(signs, t["ins"]))
+                        if key in seen_modes:
+                            continue
+                        seen_modes.add(key)
+                        signs = key
+                    engb = Engine(w.all, "bv", res)
+                    insb, flatb = mk_inputs(engb, t["ins"], signs)
+                    engb.ctx = [z3.BoolVal(True)]
+                    engb.run(f, insb)
+                    entry.setdefault("functions_encoded", sorted(engb.encoded))
+                    reach += 1
+                    for desc, fm in engb.obligations:
+                        r, dt, model = check(fm, engb.side, timeout_ms)
+                        wit = None
+                        if model is not None:
+                            wit = []
+                            for v in flatb:
+                                mv = model.eval(v, model_completion=True)
+                                wit.append(mv.as_signed_long() if z3.is_bv(mv) else mv.as_long())
+                        note(desc, "panic", r, dt, wit)
+                entry["reachable_cases"] = reach
+                entry["cases"] = reach
+                entry["encoding"] = "bit-vector (int encoding unsupported: %s); post-conditions not checked" % e
+                entry["obligations"] = list(agg.values())
+                entry["encode_and_solve_s"] = round(time.time() - t0, 2)
+                entry["bv_cross_check"] = "n/a (bit-vector is the deciding encoding)"
+            except Unsupported as e2:
+                entry["status"] = "inconclusive"
+                entry["why"] = "translator: %s / bv: %s" % (e, e2)
             continue
         entry["obligations"] = list(agg.values())
         entry["encode_and_solve_s"] = round(time.time() - t0, 2)
